@@ -85,7 +85,9 @@ func (k *KVStore) SetConfig(c *storage.Config) {
 func (k *KVStore) makeTable() error {
 	if len(k.tables) != 0 {
 		head := k.tables[len(k.tables)-1]
-		head.SetState(table.ReadOnlyState)
+		if head.State() != table.RecycledState {
+			head.SetState(table.ReadOnlyState)
+		}
 
 		for i, t := range k.tables {
 			if t.State() == table.RecycledState {
@@ -109,6 +111,16 @@ func (k *KVStore) makeTable() error {
 	k.tablesByCoefficient[k.coefficient] = newTable
 	k.coefficient++
 	return nil
+}
+
+// hasWritableTable returns false if there is no table or the most recent one has been
+// recycled. The latter happens when the tables after it have been transferred to another
+// node. A recycled table isn't registered in tablesByCoefficient and must not accept writes.
+func (k *KVStore) hasWritableTable() bool {
+	if len(k.tables) == 0 {
+		return false
+	}
+	return k.tables[len(k.tables)-1].State() != table.RecycledState
 }
 
 func (k *KVStore) SetLogger(_ *log.Logger) {}
@@ -186,7 +198,7 @@ func (k *KVStore) PutRaw(hkey uint64, value []byte) error {
 		return storage.ErrEntryTooLarge
 	}
 
-	if len(k.tables) == 0 {
+	if !k.hasWritableTable() {
 		if err := k.makeTable(); err != nil {
 			return err
 		}
@@ -222,7 +234,7 @@ func (k *KVStore) Put(hkey uint64, value storage.Entry) error {
 		return storage.ErrEntryTooLarge
 	}
 
-	if len(k.tables) == 0 {
+	if !k.hasWritableTable() {
 		if err := k.makeTable(); err != nil {
 			return err
 		}
